@@ -198,6 +198,7 @@ PropViolations(e, o) ==
         THEN {<<"C06", "a rejected message changed the conversation's state">>} ELSE {})
   \cup (IF e.ev = "Recv" /\ e.atk # "" /\ e.plain # 0 /\ ~HasEv(e, "msg:ReceivedMessageUnencrypted")
            /\ (st[p].ms # "plain" \/ st[p].pol.req)
+           /\ ~(e.m.t = "D" /\ e.m.mac[1] > 0 /\ <<e.m.mac[1], e.m.mac[2]>> = <<TheirKey(st[p], e.m.skid), OurKey(st[p], e.m.rkid)>>)
         THEN {<<"C02", "a tampered or forged message yielded plaintext">>} ELSE {})
   \cup (IF e.ev # "Done" /\ o.fam # "relay" /\ e.st.ms = "enc" /\ HasEv(e, "sec:GoneSecure") /\
              ~(/\ e.st.peer \in {"A", "B", "E"}
@@ -254,6 +255,16 @@ PropViolations(e, o) ==
         THEN {<<"C08", "DH exponents are retained although no session or key exchange exists">>} ELSE {})
   \cup (IF e.ev # "Done" /\ e.st.ms = "fin" /\ e.st.rsq # <<>>
         THEN {<<"C08", "text retained after the peer ended the session">>} ELSE {})
+  \cup (IF e.ev # "Done" /\ \E i \in DataOuts(e) : e.out[i].pad # "ok"
+        THEN {<<"C10", "a data message does not end in the padding TLV the specification prescribes">>} ELSE {})
+  \cup (IF e.ev # "Done" /\ ~e.xk
+        THEN {<<"C10", "the extra symmetric key returned is not the one derived from the message's DH secret">>} ELSE {})
+  \cup (IF e.ev # "Done" /\ (HasEv(e, "key:extra-wrong-key") \/ HasEv(e, "key:extra-wrong-usage"))
+        THEN {<<"C10", "the received extra symmetric key, usage or usage data differ from what was sent">>} ELSE {})
+  \cup (IF e.ev # "Done" /\ \E i \in DataOuts(e) : e.out[i].mac[1] = 0 \/ e.out[i].text = -1
+        THEN {<<"C10", "an emitted data message is not authenticated/encrypted with the keys the specification derives">>} ELSE {})
+  \cup (IF e.ev # "Done" /\ \E i \in DOMAIN e.out : e.out[i].t \in {"RS", "SIG"} /\ (~e.out[i].xs.ok \/ ~e.out[i].xs.sig) /\ st[p].agy # -1 /\ e.st.agy # -1
+        THEN {<<"C10", "an emitted signature message does not verify under the keys the specification derives">>} ELSE {})
   \cup (IF e.ev = "Done" /\ o.fam = "ake" /\ e.qa = 0 /\ e.qb = 0 /\ o.started /\
              ~(/\ st["A"].ms = "enc" /\ st["B"].ms = "enc" /\ st["A"].sess = st["B"].sess
                /\ st["A"].peer = "B" /\ st["B"].peer = "A" /\ st["A"].rev # st["B"].rev)
